@@ -121,7 +121,7 @@ def build(variant, harness=None, extra_cxx=(), extra_ld=(), exclude_objs=(), ext
         r = subprocess.run(["ninja", "-C", d, "-f", nf, "-j", str(os.cpu_count() or 8), target],
                            stdout=subprocess.PIPE, stderr=subprocess.STDOUT, text=True)
     if r.returncode != 0:
-        sys.stderr.write(r.stdout)
+        sys.stderr.write(r.stdout[-6000:])
         raise SystemExit(2)
     if not quiet:
         sys.stderr.write(r.stdout[-400:])
